@@ -1216,6 +1216,9 @@ fn corpus() -> Vec<&'static str> {
         "M 1 o 0 - 0908100000061000000000000000000000000000bd000c000000050000000600000004000a000000",
         // D31: DIMENSIONS whose last row precedes the first
         "M 1 o 0 - 090810000006100000000000000000000000000000020e0005000000030000000200010000000a000000",
+        // D31 (fixed b5774ce): MERGECELLS shorter than its own count; FORMULA shorter than its own cce
+        "M 13303923515016307808 od 1 _ 0908100000061000000000000000000000000000e5000200d3000a000000",
+        "M 13611103415883870042 ooooo 0 ff.a3/30.39.31.62.61.3e.3c.59 090810000006100000000000000000000000000006001900000000000000ed2c4235dcbf9b5e000000000000031a1e03000a000000",
         // FORMULA records out of row order: the formula range's from_sparse panics (known finding, found by the thorough tier)
         "M 17632450602671588669 oo 0 - 090810000006100000000000000000000000000004020f000000000002000300013dd800de160406001900020701000200010001000000ffff00000000000003001e030006001900040000000100030000000000ffff00000000000003001e03000502080004000200020001000a000000",
         // FORMULA with a numeric result under a date XF (typed by the XF since 0b12e07)
